@@ -53,14 +53,18 @@ PRIMARY = {"PolicyIteration": "policy"}  # attribute holding the iterate; defaul
 
 
 def run(ctx: Context, col) -> None:
+    from .common import Parts
+
+    part = Parts()
     for cls in ctx.solvers():
         loop = ctx.solve_loop(cls)
         col.saw("functions", f"{loop.owner.name}.solve (for {cls.name})")
-        _paths(ctx, cls, loop, col)
-        _break_rule(ctx, cls, loop, col)
-        _outside_loop(ctx, cls, loop, col)
-        _measure(ctx, cls, col)
-        _initial(ctx, cls, col)
+        part(_paths, ctx, cls, loop, col)
+        part(_break_rule, ctx, cls, loop, col)
+        part(_outside_loop, ctx, cls, loop, col)
+        part(_measure, ctx, cls, col)
+        part(_initial, ctx, cls, col)
+    part.finish()
     col.floor("R8.1", 10)
     col.floor("R8.2", 5)
     col.floor("R8.3", 5)
